@@ -151,6 +151,19 @@ def value_fn(logic, S, I, sname, s, W, K):
     return dict(value=v, init=init, final=final, worlds=fworlds)
 
 
+def serial_ok(init, got, worlds):
+    '''The serial closure is not unique.  Required: every world of the finished model has a
+    successor, the given pairs are kept, and pairs are added only from worlds that had no
+    successor (nothing is added where the relation was serial already).'''
+    init = {tuple(p) for p in init}
+    got = {tuple(p) for p in got}
+    if not init <= got:
+        return False
+    if not all(any((w, v) in got for v in worlds) for w in worlds):
+        return False
+    return all(not any(c[0] == u for c in init) for (u, v) in got - init)
+
+
 def check_value_paths(ex, paths, S, s, W, K, flavour_fix):
     """Post-run: per path, z3 decides result == oracle term."""
     bad = []
@@ -167,13 +180,7 @@ def check_value_paths(ex, paths, S, s, W, K, flavour_fix):
             base = set(range(W))
             got = set(r['final'])
             if frame == 'serial':
-                ok = all(any((w, v) in got for v in fworlds) for w in fworlds)
-                keep = set(r['init']) <= got
-                extra = got - set(r['init'])
-                newworlds = set(fworlds) - base
-                ok = ok and keep and len(newworlds) <= 1 and all(
-                    (v in newworlds) and (u in newworlds or not any(c[0] == u for c in r['init']))
-                    for (u, v) in extra)
+                ok = serial_ok(r['init'], got, fworlds)
                 if not ok:
                     bad.append((p, f'serial closure wrong: init {r["init"]} -> {sorted(got)}', None))
                     continue
@@ -655,8 +662,8 @@ def replay(data):
             return vals[S.impl_unassigned]
         return vals[v] if isinstance(v, str) else vals[S.names[int(v)]]
     for w in worlds:
+        # as in build_model: only the frame; registering the world in R is the job of finish()
         m.frames[w]
-        m.R[w]
     consts = cs[:K]
     if s.predicates or s.quantifiers:
         m.constants.update(consts)
@@ -697,8 +704,9 @@ def replay(data):
                           f'{sorted(want_R)} of {data.get("init")}')
     elif S.modal:
         fw = sorted(set(m.R) | set(m.frames))
-        if not all(any((w, v) in interp['R'] for v in fw) for w in fw):
-            return True, f'{data["logic"]}: finished access {sorted(interp["R"])} is not serial'
+        if not serial_ok(data.get('init') or (), interp['R'], fw):
+            return True, (f'{data["logic"]}: finished access {sorted(interp["R"])} is not a serial closure of '
+                          f'{data.get("init")} over worlds {fw}')
     interp['worlds'] = sorted(set(m.R) | set(m.frames))
     tables = {op: {tuple(S.names[i] for i in k): S.names[v] for k, v in t.items()}
               for op, t in S.impl.items()}
